@@ -608,6 +608,48 @@ def r8(ctx, facts):
         r.instance("chain-form-2", True, "one filter over the old topology", b.span, nontrivial=False)
 
 
+def r9(ctx, facts):
+    r = ctx.rule("R9", "tablet maintenance is told the OLD topology as old and the freshly computed one as new, at every refresh path (full and peers-only)", floor=3)
+    from ..util import field_slice
+    n = 0
+    for b, bb in facts.callers_of("scylla::cluster::state::ClusterState::perform_tablets_maintenance"):
+        if b.crate != "scylla" or bb not in b.live_blocks:
+            continue
+        c = next((x for b2, x in b.calls() if b2 == bb), None)
+        if c is None or len(c.args) < 3:
+            continue
+        n += 1
+        key = fn_short(b.path)
+
+        def origin(op):
+            seen, cs, _ = field_slice(b, op)
+            names = {(x.name or x.decl or "").split("::")[-1] for x in cs}
+            reads_known = False
+            for l, want in seen:
+                for d in b.defs.get(l, []):
+                    rv = d[3] if d[0] == "stmt" else (d[4] if d[0] in ("part", "dpart") else None)
+                    if rv and any(isinstance(e, list) and e[0] == "f" and e[2] == "known_nodes" for pl in _places(rv) for e in pl[1]):
+                        reads_known = True
+            if "calculate_new_topology" in names:
+                return "fresh"
+            if reads_known:
+                return "current"
+            if names and names <= {"new", "default", "with_capacity"}:
+                return "empty"
+            return "?" + ",".join(sorted(names))
+        o_old, o_new = origin(c.args[1]), origin(c.args[2])
+        r.instance("old-and-new-in-their-places:" + key, o_new == "fresh" and o_old in ("current", "empty"),
+                   "perform_tablets_maintenance(tablets, old, new, ..) is called with old = %s, new = %s: with the two swapped the nodes that LEFT are never reported as removed "
+                   "(their tablets stay and keep answering), and unknown replicas are resolved against the old node map" % (o_old, o_new), c.span)
+    if n < 3:
+        raise AnchorLost("expected three callers of perform_tablets_maintenance (new, new_updated, new_with_updated_topology), found %d" % n)
+
+
+def _places(rv):
+    from ..util import _rv_places
+    return _rv_places(rv)
+
+
 def check(ctx):
     facts = inline_view(ctx.facts("default"))
     add = None
@@ -615,7 +657,7 @@ def check(ctx):
         add = r1(ctx, facts)
     except AnchorLost as ex:
         ctx.rule("R1x", "anchors of r1").fail("anchor-lost", str(ex))
-    for fn in ((lambda c, f: r2(c, f, add)) if add else None, r3, r4, r5, r6, r7, r8):
+    for fn in ((lambda c, f: r2(c, f, add)) if add else None, r3, r4, r5, r6, r7, r8, r9):
         if fn is None:
             continue
         try:
